@@ -51,6 +51,24 @@ for _init, _slot in (("slot = [0]", "slot[0]"), ("slot = make([]int64, 1)", "slo
                        % (_init, _decl, _slot, _call % _slot, _slot) % (0 if "five" in _what or "literal" in _what else 8),
                        "[i:0,i:1,i:1,i:1,i:1,i:1,i:1,i:1,i:1]", "a go call of %s evaluates its arguments before it starts (ids handed over through %s)" % (_what, _slot)))
 
+# a go call starts the callee with exactly the arguments of the statement, each bound to its own parameter, for every
+# number of parameters (the direct path takes 0-4, the reflect path more; variadic and Go callees)
+for _n in range(0, 7):
+    _params = ", ".join("p%d" % i for i in range(_n))
+    _args = ", ".join(str(10 * (i + 1)) for i in range(_n))
+    _want = "[" + ",".join("i:%d" % (10 * (i + 1)) for i in range(_n)) + "]"
+    EXPECT.append(("c = make(chan interface, 1)\nfunc f(%s) { c <- [%s] }\ngo f(%s)\n(<-c)" % (_params, _params, _args), _want,
+                   "a go call of a script function with %d parameters binds every argument to its own parameter" % _n))
+    EXPECT.append(("c = make(chan interface, 1)\ng = func(%s) { c <- [%s] }\ngo g(%s)\n(<-c)" % (_params, _params, _args), _want,
+                   "a go call of a function value with %d parameters binds every argument to its own parameter" % _n))
+    if _n > 0:
+        EXPECT.append(("c = make(chan interface, 1)\nfunc f(%s...) { c <- [%s] }\ngo f(%s)\n(<-c)" % (_params, _params, _args),
+                       "[" + ",".join(["i:%d" % (10 * (i + 1)) for i in range(_n - 1)] + ["[i:%d]" % (10 * _n)]) + "]",
+                       "a go call of a variadic script function with %d parameters" % _n))
+        EXPECT.append(("c = make(chan interface, 1)\nfunc f(%s) { c <- [%s] }\ngo f([%s]...)\n(<-c)" % (_params, _params, _args), _want,
+                       "a go call with a spread into %d parameters" % _n))
+EXPECT.append(("c = make(chan interface, 3)\ngo hsend(c, 1)\ngo hsend(c, 2)\ngo hsend(c, 3)\na = (<-c) + (<-c) + (<-c)\na", "i:6", "go calls of a Go function deliver their arguments"))
+
 
 def run(tier, seed, replay=None):
     res = Result(PID, tier, seed)
